@@ -483,7 +483,8 @@ def c04_r5(ctx: Ctx, rule):
             if fld == "<super>":
                 ok = "super_eq" in ats
             else:
-                ok = ("eq(%s)" % fld) in ats or ("eq(len %s)" % fld) in ats and fld in loops or any(a.startswith("loop(") and fld in a for a in ats) and any(fld in norm(n) for n in walk_function(fi.node) if isinstance(n, ast.Compare))
+                fnames = {fld, ctx.field_named(cls, fld, fld)}
+                ok = ("eq(%s)" % fld) in ats or ("eq(len %s)" % fld) in ats and any(f in loops for f in fnames) or any(a.startswith("loop(") and any(f in a for f in fnames) for a in ats) and any(any(f in norm(n) for f in fnames) for n in walk_function(fi.node) if isinstance(n, ast.Compare))
             res.ob("%s.__eq__ compares %s: %s" % (cls.rsplit(".", 1)[1], fld, ok))
             if not ok:
                 res.fail(rule.id, "field-not-compared::%s::%s" % (cls, fld), ctx.loc(q, fi.node), "%s.__eq__ never compares %s" % (cls.rsplit(".", 1)[1], fld),
@@ -491,7 +492,30 @@ def c04_r5(ctx: Ctx, rule):
     # the per-record matching inside ProvBundle.__eq__ really uses record equality (== / in), not identity or identifiers only
     q = eq_method(ctx, BUNDLE)
     fi = ctx.fn(q)
-    cmp_ok = any(isinstance(n, ast.Compare) and isinstance(n.ops[0], (ast.Eq, ast.In, ast.NotIn)) and not any(isinstance(x, ast.Attribute) and x.attr in ("identifier", "_identifier") for x in ast.walk(n)) for n in walk_function(fi.node) if isinstance(n, ast.Compare) and any(isinstance(x, ast.Name) and "record" in x.id for x in ast.walk(n)))
+    exb = Extractor(ctx, q)
+    loopvars = {}
+    for n in walk_function(fi.node):
+        if isinstance(n, ast.For) and isinstance(n.target, ast.Name):
+            pr = exb.proj(n.iter)
+            if pr and pr[1] == "records":
+                loopvars[n.target.id] = pr[0]
+
+    def sides_of(e):
+        out = set()
+        for x in ast.walk(e):
+            if isinstance(x, ast.Name) and x.id in loopvars:
+                out.add(loopvars[x.id])
+        pr = exb.proj(e) if isinstance(e, (ast.Name, ast.Attribute, ast.Call)) else None
+        if pr and pr[1] == "records":
+            out.add(pr[0])
+        return out
+
+    cmp_ok = False
+    for n in walk_function(fi.node):
+        if isinstance(n, ast.Compare) and len(n.ops) == 1 and isinstance(n.ops[0], (ast.Eq, ast.NotEq, ast.In, ast.NotIn)) and not any(isinstance(x, ast.Attribute) and x.attr in ("identifier", "_identifier") for x in ast.walk(n)):
+            if sides_of(n.left) | sides_of(n.comparators[0]) >= {"self", "other"} and sides_of(n.left) and sides_of(n.comparators[0]):
+                cmp_ok = True
+    cmp_ok = cmp_ok or any(isinstance(n, ast.Compare) and isinstance(n.ops[0], (ast.Eq, ast.In, ast.NotIn)) and not any(isinstance(x, ast.Attribute) and x.attr in ("identifier", "_identifier") for x in ast.walk(n)) for n in walk_function(fi.node) if isinstance(n, ast.Compare) and any(isinstance(x, ast.Name) and "record" in x.id for x in ast.walk(n)))
     setcmp = any(isinstance(n, ast.Compare) and isinstance(n.ops[0], ast.Eq) and "records" in norm(n) for n in walk_function(fi.node))
     res.ob("ProvBundle.__eq__ matches records with record equality: %s" % (cmp_ok or setcmp))
     if not (cmp_ok or setcmp):
@@ -511,7 +535,7 @@ def c04_r6(ctx: Ctx, rule):
         ft = {}
         for c in ctx.p.mro(cls):
             ft.update(field_table(ctx, c))
-        allowed = {"_records", "_bundles"}
+        allowed = {"_records", "_bundles", ctx.field_named(DOC, "bundles", "_bundles"), ctx.field_named(BUNDLE, "records", "_records")}
         used = {n.attr for n in walk_function(fi.node) if isinstance(n, ast.Attribute) and n.attr in ft}
         bad = used - allowed
         res.ob("%s.__eq__ reads fields %s" % (cls.rsplit(".", 1)[1], sorted(used) or "(through get_records/bundles only)"))
